@@ -19,7 +19,7 @@ import numpy as np
 from barril.units import Array, FractionScalar, ObtainQuantity, Quantity, Scalar, UnitDatabase
 from barril.units.posc import CreateAreaQuantityFromLengthQuantity, CreateVolumeQuantityFromLengthQuantity, MakeBaseToCustomary, MakeCustomaryToBase
 
-from .. import explorer, worlds
+from .. import explorer, par, worlds
 from ..runner import Part
 from . import c14
 
@@ -54,7 +54,7 @@ REG = OrderedDict(
         ("AddUnit(volume, cm3)", lambda db: db.AddUnit("volume", "cubic centimetre", "cm3", *_c(0.0, 1e-6, 1.0, 0.0))),
         ("AddCategory(depth, length, override, min_value=0)", lambda db: db.AddCategory("depth", "length", override=True, min_value=0.0)),
         ("AddCategory(depth, time, override)", lambda db: db.AddCategory("depth", "time", override=True)),
-        ("AddCategory(length, length, override, default_unit=cm, default_value=5)", lambda db: db.AddCategory("length", "length", override=True, default_unit="cm", default_value=5.0)),
+        ("AddCategory(length, length, override, default_unit=cm, default_value=5, max_value=100)", lambda db: db.AddCategory("length", "length", override=True, default_unit="cm", default_value=5.0, max_value=100.0)),
         ("AddCategory(new, length)", lambda db: db.AddCategory("new", "length")),
         ("AddUnit(length, m) [rejected]", lambda db: db.AddUnit("length", "dup", "m", *_c(0.0, 1.0, 1.0, 0.0))),
         ("AddCategory(length, length) [rejected]", lambda db: db.AddCategory("length", "length")),
@@ -102,6 +102,8 @@ QUERIES = OrderedDict(
         ("Scalar(1,'m','new')", lambda db: Scalar(1.0, "m", "new")),
         ("Scalar(1,'x')", lambda db: Scalar(1.0, "x")),
         ("Scalar(1,'cm3')", lambda db: Scalar(1.0, "cm3")),
+        ("Scalar(2,'km').IsValid()", lambda db: Scalar(2.0, "km").IsValid()),
+        ("Array([1,200],'cm').IsValid()", lambda db: Array([1.0, 200.0], "cm").IsValid()),
         ("ObtainQuantity('m')", lambda db: ObtainQuantity("m")),
         ("ObtainQuantity('cm','depth')", lambda db: ObtainQuantity("cm", "depth")),
         ("ObtainQuantity(None,'depth')", lambda db: ObtainQuantity(None, "depth")),
@@ -145,7 +147,11 @@ QUICK_SKIP = set()
 def canonical(v):
     """Canonical, comparable form of an outcome value."""
     if isinstance(v, Quantity):
-        return ("Quantity", v.GetCategory(), v.GetUnit(), v.GetQuantityType(), tuple((c, tuple(ue)) for c, ue in v.GetCategoryToUnitAndExps().items()), v.GetUnknownCaption())
+        try:
+            info = repr(v.GetCategoryInfo())  # what the quantity knows about its category (limits, default unit, ...)
+        except Exception as e:
+            info = type(e).__name__
+        return ("Quantity", v.GetCategory(), v.GetUnit(), v.GetQuantityType(), tuple((c, tuple(ue)) for c, ue in v.GetCategoryToUnitAndExps().items()), v.GetUnknownCaption(), info)
     if isinstance(v, (Scalar, FractionScalar)):
         return (type(v).__name__, repr(v), v.GetQuantityType(), canonical(v.GetQuantity()), v.IsValid())
     if isinstance(v, Array):
@@ -311,9 +317,42 @@ def replay(hist_ops):
     return 1 if part.violations else 0
 
 
+def _stale_task(task):
+    """Histories  q1.. ; r1.. ; (q1 again, then every other query)  on one database: a query answered before a
+    registration, the registration(s), and then everything that could have been remembered from before.  The BFS
+    merges the state after a query with the state before it whenever the caches it can read are unchanged; these
+    histories do not rely on that."""
+    part = Part()
+    nq = [i for i, o in enumerate(OPS) if o[0] == "Q"]
+    for prefix, regs in task:
+        s = make()
+        hist = []
+        seq = list(prefix) + list(regs)
+        seq += [i for i in prefix if OPS[i][0] == "Q"][::-1] + [i for i in nq if i not in prefix]
+        for i in seq:
+            if not apply(s, OPS[i], part, tuple(hist)):
+                break
+            hist.append(i)
+            part.count("stale_steps")
+        part.count("stale_histories")
+    return part
+
+
+def _stale_histories(ctx):
+    nq = [i for i, o in enumerate(OPS) if o[0] == "Q"]
+    nr = [i for i, o in enumerate(OPS) if o[0] == "R"]
+    regs = [(r,) for r in nr] + [(a, b) for a in nr for b in nr if a != b]
+    prefixes = [()] + [(q,) for q in nq]
+    if ctx.thorough:
+        prefixes += [(a, b) for a in nq for b in nq if a != b]
+    tasks = [(p, r) for p in prefixes for r in regs]
+    par.run_sharded(ctx, _stale_task, par.chunks(tasks, ctx.procs * 4))
+
+
 def run(ctx):
     depth = 5 if ctx.thorough else 3
     res = explorer.bfs(ctx, make, apply, OPS, canon, max_depth=depth, lookahead=2)
+    _stale_histories(ctx)
     ctx.level = "model_checking"
     ctx.states = res["states"]
     ctx.transitions = res["transitions"]
@@ -323,7 +362,7 @@ def run(ctx):
     ctx.part.sample({"registrations": list(REG), "queries": list(QUERIES)})
     ctx.rule = (
         "BFS to depth %d over %d registrations + %d closed query terms on a small database rebuilt per history; every transition's outcome compared with the same operation on a fresh database "
-        "holding the same registrations; non-trivial = transitions taken from a state whose caches were non-empty; outcomes = distinct canonical outcomes" % (depth, len(REG), len(QUERIES))
+        "holding the same registrations; plus every history  (no / one%s earlier query) ; (one or two registrations) ; (the earlier queries again, then every other query)  run on one database with the same oracle; non-trivial = transitions taken from a state whose caches were non-empty; outcomes = distinct canonical outcomes" % (depth, len(REG), len(QUERIES), " / two" if ctx.thorough else "")
     )
     ctx.nontrivial = ctx.part.counters.get("nontrivial_transitions", 0)
     ctx.coverage_extra = {
@@ -332,6 +371,8 @@ def run(ctx):
         "open_frontier": res["open_frontier"],
         "rejected_registrations": ctx.part.counters.get("rejected", 0),
         "alphabet": {"registrations": len(REG), "queries": len(QUERIES)},
+        "query_registration_query_histories": ctx.part.counters.get("stale_histories", 0),
+        "query_registration_query_steps": ctx.part.counters.get("stale_steps", 0),
     }
     ctx.assumptions = [
         "objects do not persist between operations (each operation is a closed term): a value object created before a registration and used after it is outside this check",
